@@ -28,6 +28,16 @@
      has the focus).  Read inclusively; route_seq says so.
    * Findings (each has a ..._refuted witness below and is excluded by an explicit guard):
      stale-path, overlap-siblings, focus-in-focusout, termfocus-enter, dup-widget.
+   * The observation predicate of the differential run (model/Route.v check_step) has clauses
+     that no finding excuses: the target call of a routed event goes to the widget that holds
+     the focus when the target phase starts and the calls follow the stored path
+     (key_route_obs); a mouse event is routed along the surfaces under the pointer with the
+     deepest widget of the topmost chain as target, overlapping siblings or not
+     (mouse_route_obs); the focused widget is the receiver of the last FocusIn (focus_after);
+     after every step each widget is hovered exactly when it was under the pointer at the
+     last hit test, as computed by an observer from the inputs alone (hov_track, hover_obs).
+     C15_key_route_obs, C15_mouse_route_obs, C15_focused_is_last_focusin(_step),
+     C15_hover_tracked and C15_hover_obs prove that every run of the model satisfies them.
    Not covered: errors returned by handlers; the 8 ms timer (a frame is an input);
    SetMouseShapeCmd (only stored for the next render). *)
 From Coq Require Import Permutation.
@@ -238,6 +248,87 @@ Theorem C15_hover_closed_on_pointer_leave :
 Proof. exact pointer_outside_clears. Qed.
 Print Assumptions C15_hover_closed_on_pointer_leave.
 
+(* ---------------------------------------------------------------- the observation predicate *)
+
+(* The clauses of the observation predicate (model/Route.v, check_step) that no finding
+   excuses are satisfied by every run of the model; together with "no mismatch" of the
+   differential run this means that they cannot raise a false alarm on code the model
+   describes.  The boolean functions below are literally the ones check_step evaluates on the
+   implementation's observation (with the snapshot's path / focused widget and the
+   observer's frame in place of the model's fields). *)
+
+(* "then to the focused widget": over every history the widget that holds the focus is the
+   one that received the last FocusIn delivery ([focus_after]) — also when a FocusOut handler
+   answers with a focus command (finding focus-in-focusout). *)
+Theorem C15_focused_is_last_focusin :
+  forall oracle capturer fuel (l : list input) (s s' : st),
+  Forall (fun i => match i with IEv e => is_focus_ev e = false | _ => True end) l ->
+  run oracle capturer fuel s l = Some s' ->
+  exists D, log (co s') = log (co s) ++ D /\ focused (co s') = focus_after (focused (co s)) D.
+Proof. exact focused_last_focusin_run. Qed.
+Print Assumptions C15_focused_is_last_focusin.
+
+(* the same for one input (the form check_step uses) *)
+Theorem C15_focused_is_last_focusin_step :
+  forall oracle capturer fuel (s : st) (i : input) (s' : st),
+  match i with IEv e => is_focus_ev e = false | _ => True end ->
+  step oracle capturer fuel s i = Some s' ->
+  exists D, log (co s') = log (co s) ++ D /\ focused (co s') = focus_after (focused (co s)) D.
+Proof. exact focused_last_focusin_step. Qed.
+Print Assumptions C15_focused_is_last_focusin_step.
+
+(* A routed non-mouse event: the calls go capture-target-bubble along the stored focus path
+   and the target call goes to the widget that holds the focus WHEN THE TARGET PHASE STARTS,
+   i.e. after the FocusOut/FocusIn deliveries triggered by the capture handlers
+   ([key_target] reads it off the observed entries).  No guard: this holds on stale paths too. *)
+Theorem C15_key_route_obs :
+  forall oracle capturer fuel (s : st) (ev : event) (s' : st),
+  is_focus_ev ev = false ->
+  focus_handle oracle capturer fuel s ev = Some s' ->
+  exists D, log (co s') = log (co s) ++ D /\
+            key_route_obs capturer (path s) (focused (co s)) ev D = true.
+Proof. exact key_route_obs_model. Qed.
+Print Assumptions C15_key_route_obs.
+
+(* A mouse event: after the enter/leave notifications the routing calls ([mouse_rd]) go
+   capture-target-bubble along all surfaces under the pointer (absolute coordinates,
+   pre-order) and the target is the deepest widget of the topmost chain, also when siblings
+   overlap (finding overlap-siblings concerns only who else is asked). *)
+Theorem C15_mouse_route_obs :
+  forall oracle capturer fuel (s : st) (c r : Z) (s' : st),
+  wf16 (last_frame s) ->
+  mouse_handle oracle capturer fuel s c r = Some s' ->
+  exists D, log (co s') = log (co s) ++ D /\ mouse_route_obs capturer (last_frame s) c r D = true.
+Proof. exact mouse_route_obs_model. Qed.
+Print Assumptions C15_mouse_route_obs.
+
+(* The hover observer.  [hov_track] (what check_step's observer computes from the inputs
+   alone: frame, pointer, widgets under the pointer at the last hit test) follows the mouse
+   handler's state through every input, for frames with uint16 sizes: in particular after
+   the redraw-path update(s) with a frame s whose root size differs from the last frame. *)
+Theorem C15_hover_tracked :
+  forall oracle capturer fuel (s : st) (i : input) (s' : st) (h : hov_st),
+  hov_tracks h s -> tree_wf i ->
+  step oracle capturer fuel s i = Some s' ->
+  hov_tracks (hov_track (f_redraw (co s)) h i) s'.
+Proof. exact hov_tracks_step. Qed.
+Print Assumptions C15_hover_tracked.
+
+(* ... and after every history that starts with nobody hovered, every widget's enter/leave
+   notifications alternate and end with MouseEnter exactly when the widget is in the
+   observer's set ([hover_obs]), on frames without duplicate widgets; the root widget is
+   excused when the history contains a terminal FocusIn (finding termfocus-enter). *)
+Theorem C15_hover_obs :
+  forall oracle capturer fuel (r : wid) (l : list input) (s0 s' : st) (h : hov_st),
+  root s0 = r -> log (co s0) = [] -> last_hits s0 = [] -> NoDup (ids (last_frame s0)) ->
+  Forall (fun i => match tree_of_input i with Some t => NoDup (ids t) | None => True end) l ->
+  Forall (fun i => match i with IEv e => is_hover_ev e = false | _ => True end) l ->
+  run oracle capturer fuel s0 l = Some s' ->
+  hov_tracks h s' ->
+  hover_obs (fun w => (w =? r) && existsb is_termfocusin l) (log (co s')) (hv_set h) = true.
+Proof. exact hover_obs_model. Qed.
+Print Assumptions C15_hover_obs.
+
 (* ---------------------------------------------------------------- fuel *)
 
 (* With a finite script (the k-th handler call returns the k-th command, nothing afterwards)
@@ -390,3 +481,44 @@ Example C15_ex_batch :
     (CBatch false [COut 0 1; CBatch true [CRedraw; CBatch false [COut 1 2; CQuit]]; CNone; COut 0 1]) =
   Some (mkCore [] [COut 0 1; CRedraw; COut 1 2; CQuit; COut 0 1] true false true false false 0).
 Proof. vm_compute. reflexivity. Qed.
+
+(* non-vacuity: the hypotheses hold at the start of App.Run and of a direct history, and
+   the three clauses are falsifiable *)
+Example C15_ex_obs_hyps :
+  hov_tracks (mkHov (Node 0 0 0 []) None []) (init_st 0) /\
+  hov_tracks (mkHov (Node (-1) 0 0 []) None []) (d_init 0 0 [0]) /\
+  wf16 overlap_tree /\ tree_wf (PUpdate overlap_tree).
+Proof.
+  assert (W : wf16 overlap_tree) by (repeat constructor; lia).
+  repeat split; try exact W; try (repeat constructor; lia).
+Qed.
+
+(* a capture handler (root 0) moves the focus from 1 to 2 without consuming: the target call
+   must go to 2; a target call to 1 is rejected *)
+Example C15_ex_key_target :
+  let good := [(0, EKey 9, Capture, CFocus 2); (1, EFocusOut, Target, CNone); (2, EFocusIn, Target, CNone);
+               (2, EKey 9, Target, CNone); (0, EKey 9, Bubble, CNone)] in
+  let bad  := [(0, EKey 9, Capture, CFocus 2); (1, EFocusOut, Target, CNone); (2, EFocusIn, Target, CNone);
+               (1, EKey 9, Target, CNone); (0, EKey 9, Bubble, CNone)] in
+  key_route_obs (capt_of [0]) [0; 1] 1 (EKey 9) good = true /\
+  key_route_obs (capt_of [0]) [0; 1] 1 (EKey 9) bad = false.
+Proof. vm_compute. split; reflexivity. Qed.
+
+(* overlapping siblings 1 (below) and 2 (on top) at (4,0): the target must be 2 *)
+Example C15_ex_mouse_target :
+  let ev := EMouse 4 0 in
+  mouse_route_obs (capt_of []) overlap_tree 4 0
+    [(2, EEnter, Target, CNone); (2, ev, Target, CNone); (1, ev, Bubble, CNone); (0, ev, Bubble, CNone)] = true /\
+  mouse_route_obs (capt_of []) overlap_tree 4 0
+    [(1, EEnter, Target, CNone); (1, ev, Target, CNone); (0, ev, Bubble, CNone)] = false.
+Proof. vm_compute. split; reflexivity. Qed.
+
+(* the root shrinks away from a resting pointer at (8,0): the observer expects nobody hovered,
+   a root that got no MouseLeave is rejected *)
+Example C15_ex_hover_shrink :
+  let h1 := hov_track false (mkHov (Node 0 10 5 []) None []) (IMouse 8 0) in
+  let h2 := hov_track false h1 (PUpdate (Node 0 6 5 [])) in
+  hv_set h1 = [0] /\ hv_set h2 = [] /\
+  hover_obs (fun _ => false) [(0, EEnter, Target, CNone)] (hv_set h2) = false /\
+  hover_obs (fun _ => false) [(0, EEnter, Target, CNone); (0, ELeave, Target, CNone)] (hv_set h2) = true.
+Proof. vm_compute. repeat split; reflexivity. Qed.
